@@ -74,6 +74,8 @@ type FuncCtx struct {
 	specFnDeclared map[string]bool
 	specFnHeaps    map[string][]HeapKey // heaps a spec function's body reads: hidden parameters
 	immutKeys      map[string]string    // heap name -> Type.field of declared immutable fields (immutable.go)
+	tracked        []string             // names N with calls(N) in the root contract (callassert.go)
+	preRet         map[ssa.Instruction]Val // placeholders for results of calls translated later (speceval.go preReturned)
 	axiomsAdded bool
 	inputs   []ModelVar
 	nonNil   map[string]bool
@@ -91,6 +93,7 @@ type FuncCtx struct {
 	rootCon  *Contract
 	lastMapRange *ssa.Range
 	inlineDefs int
+	pureSpec   int // >0 while a Go function is unfolded inside a specification (blockCur.assume is then a no-op)
 	qdepth     int
 	addingAxioms bool
 	axiomDone map[int]bool
